@@ -1355,7 +1355,7 @@ class Run:
         est = max(10, 3 * sum(1 for p in self.spec['programs'] for _ in _iter(p)))
         if self.fine:
             est *= 6
-        self.sched = sched.Scheduler(rng, self.sw, self.spec.get('decisions'), est)
+        self.sched = sched.Scheduler(rng, self.sw, self.spec.get('decisions'), est, self.spec.get('switches'))
         for aid, prog in enumerate(self.spec['programs']):
             ctx = self.new_ctx(None, 'thread', aid)
             actor = Actor(self, aid, prog, ctx, None)
